@@ -92,6 +92,7 @@ def rule_grammar_literals(ctx: Ctx, rid="C05.GRAMMAR-LITERAL"):
 
 def check(rep):
     ctx = Ctx(rep)
+    ctx.shape_options.add("overflow")      # decimals too large for a float (the lexer's float() gives inf)
     if rep.tier == "thorough":
         LR.validate_engine(ctx)
     rule_token_conv(ctx)
